@@ -71,6 +71,14 @@ class ChainFinder(object):
                 top_descendents.update(bottom_descendents)
             else:
                 top_descendents.add(bottom_h)
+            # trees that were waiting for a block in the interior of the new path can be extended as well
+            for k in range(1, len(path) - 1):
+                waiting = self.descendents_by_top.get(path[k])
+                if waiting:
+                    for descendent in waiting:
+                        self.trees_from_bottom[descendent].extend(path[k + 1 :])
+                    del self.descendents_by_top[path[k]]
+                    top_descendents.update(waiting)
 
     def all_chains_ending_at(self, h: Any) -> Generator[list[Any], None, None]:
         for bottom_h in self.descendents_by_top.get(h, []):
